@@ -483,4 +483,31 @@ theorem C01_quick_images_are_crash_images (t : List Op) (ni : NamedImage)
 example : 3 < (quickImages (Dir.empty.run ([Op.syncDir, .atomicWrite META ⟨0, 0, 0, []⟩, .syncDir] ++ demoTrace.take 30))).length := by
   decide
 
+/-- **what is recovered is one written `meta.json`, whole**: along a disciplined trace, the
+`meta.json` found after any crash is — payload for payload — either one the initial state could
+already leave or one that an `atomic_write(meta.json)` of the trace prefix wrote (never a mix of
+two, never a torn one), and every file it references is present and sealed: the recovered index
+exposes exactly the segments, hence the documents, of that one `save_metas`. -/
+theorem C01_recovered_meta_was_written (s0 : PState) (h0 : Inv s0) (t : List Op)
+    (hd : Disciplined s0 t = true) (k : Nat) (img : Image)
+    (hi : CrashImage (s0.dir.run (t.take k)) img) :
+    ∃ m, img.atom META = some m ∧ recover img = some m.commit ∧
+      (m ∈ metaCands s0 ∨ Op.atomicWrite META m ∈ t.take k) ∧ ∀ p ∈ m.refs, sealedIn img p = true := by
+  have hinv := h0.run _ (disciplined_take s0 t k hd)
+  rw [← run_dir] at hi
+  obtain ⟨m, hmc, hme, hrec, hfiles⟩ := hinv.recover img hi
+  refine ⟨m, hme, hrec, cands_written s0 (t.take k) m hmc, ?_⟩
+  intro p hp
+  simp [sealedIn, hfiles p hp]
+
+/-- from the state after `Index::create`, every run of the writer model, every crash point -/
+theorem C01_writer_runs_recover_from_created (a b : Nat) (evs : List WEv)
+    (hr : WRun a b PState.created evs) (k : Nat) (img : Image)
+    (hc : CrashImage (PState.created.dir.run ((evs.flatMap (WEv.ops a b)).take k)) img) :
+    ∃ j, recover img = some j ∧ lastAcked 0 ((evs.flatMap (WEv.ops a b)).take k) ≤ j ∧
+      j ≤ lastStarted 0 ((evs.flatMap (WEv.ops a b)).take k) :=
+  C01_writer_runs_recover PState.created C01_created_inv C01_created_synced a b evs hr k img hc
+
+example : ∃ m, Op.atomicWrite META m ∈ demoTrace.take 30 ∧ m.commit = 2 := ⟨⟨2, 7, 40, [5]⟩, by decide, rfl⟩
+
 end TantivyModel.C01
